@@ -55,6 +55,7 @@ pub struct Summary {
     pub preempts_in_api: u64,
     pub contention: u64,
     pub stalls_planned: u64,
+    pub known: BTreeMap<String, u64>,
 }
 
 pub fn violation_json(v: &Violation) -> J {
@@ -100,6 +101,7 @@ struct Src<'a> {
     start: Instant,
     digests: Vec<(u64, u64, u64)>,
     salt: u64,
+    findings: Vec<crate::findings::Finding>,
 }
 
 impl<'a> Src<'a> {
@@ -197,10 +199,29 @@ impl<'a> RunSource for Src<'a> {
         if let Some(e) = v.harness_error {
             sum.harness_errors.push(format!("run {} (seed {}): {}", index, seed, e));
         }
-        if let Some(first) = v.violations.first() {
-            sum.n_violations += 1;
-            if sum.violations.len() < self.cfg.max_violations {
-                sum.violations.push(failure_json(index, seed, &scn, &cfg, &o, first));
+        // a run is a known finding only if *every* violation it shows is listed; anything
+        // else is reported (the first unlisted violation of the run)
+        let unlisted = v.violations.iter().find(|x| crate::findings::find(x, &self.findings).is_none());
+        match unlisted {
+            Some(first) => {
+                sum.n_violations += 1;
+                if sum.violations.len() < self.cfg.max_violations {
+                    sum.violations.push(failure_json(index, seed, &scn, &cfg, &o, first));
+                }
+            }
+            None => {
+                let mut seen: Vec<String> = Vec::new();
+                for x in &v.violations {
+                    if let Some(f) = crate::findings::find(x, &self.findings) {
+                        let l = crate::findings::label(f);
+                        if !seen.contains(&l) {
+                            seen.push(l);
+                        }
+                    }
+                }
+                for l in seen {
+                    *sum.known.entry(l).or_default() += 1;
+                }
             }
         }
     }
@@ -219,6 +240,7 @@ pub fn run_worker(cfg: &WorkerCfg) -> J {
         start: Instant::now(),
         digests: Vec::new(),
         salt: props::salt(&cfg.prop),
+        findings: crate::findings::load(),
     };
     exec::run_batch(&mut src);
     let wall = src.start.elapsed().as_secs_f64();
@@ -262,5 +284,6 @@ pub fn run_worker(cfg: &WorkerCfg) -> J {
         .set("preempts_in_api", J::UInt(s.preempts_in_api))
         .set("contention", J::UInt(s.contention))
         .set("stalls_planned", J::UInt(s.stalls_planned))
+        .set("known", map_json(&s.known))
         .set("wall_s", J::Num(wall))
 }
